@@ -3,13 +3,13 @@ ID = 'C14'
 LEVEL = 'other'
 CONTRACT_MODULES = ['contracts.time_utils', 'contracts.catalogs']
 CONE = ['csep.utils.time_utils.epoch_time_to_utc_datetime', 'csep.utils.time_utils.datetime_to_utc_epoch', 'lemma:csep.utils.time_utils.round_trips',
-        'csep.core.catalogs.AbstractBaseCatalog.from_dict']
+        'csep.core.catalogs.AbstractBaseCatalog.from_dict', 'csep.core.catalogs.AbstractBaseCatalog.to_dict']
 ORACLE_MODULES = ['rt.oracles_io']
 BOUNDED = os.path.exists(os.path.join(os.path.dirname(__file__), '..', 'rt', 'bounded_C14.py'))
 FLOAT_MODEL = 'E for the time conversions (see C15); concrete executions otherwise'
 TRUSTED = ['the oracles in rt/ compute the expected outcome from the property statement, independently of the code under test', 'pyvc engine, z3 5.1']
-ASSUMPTIONS = ['proved: from_dict hands the stored event list to the constructor unchanged and restores every stored attribute - catalog id for every integer including 0, name, format, flags, access time - when the dictionary has them (constructor observed through a recording stub); the origin-time conversions of every round trip (C15)', 'the writers / readers themselves (csv, json, pandas, str/float, the structured-array constructor, ids with delimiters) are exercised by the bounded run-time contract only']
+ASSUMPTIONS = ['proved: to_dict stores one row per event, in catalog order, each row the six fields of its event in dtype order (loop invariant over a catalog of any length; decoding of byte ids is the string layer), every attribute under its public name with its own value (falsy values included), the region in its own dictionary form, the event array itself not', 'proved: from_dict hands the stored event list to the constructor unchanged and restores every stored attribute - catalog id for every integer including 0, name, format, flags, access time - when the dictionary has them (constructor observed through a recording stub); the origin-time conversions of every round trip (C15)', 'the writers / readers themselves (csv, json, pandas, str/float, the structured-array constructor, ids with delimiters) are exercised by the bounded run-time contract only']
 EXPLANATION = 'from_dict attribute restoration (falsy values too) under contract; the origin-time part of every round trip rests on the proved epoch<->datetime contracts (C15); writers/readers (csv, json, pandas, str/float) are exercised by the bounded run-time contract'
 TECHNIQUE = 'bounded stand-in: run-time form of the contracts on the real code (small-scope enumeration + directed cases), labelled bounded, nothing counted as proved; deductive part: contracts of the shared callees'
-LEVEL_TEXT = 'other: from_dict attribute restoration and the time conversions are proved; the file / frame formats are decided by the bounded run-time contract only'
+LEVEL_TEXT = 'other: the dictionary form (to_dict: every event, in order, field by field; from_dict: event list to the constructor unchanged, attributes restored) and the time conversions are proved; the file / frame formats are decided by the bounded run-time contract only'
 LEVEL_NOTE = 'attribute restoration and time conversions proved; writers / readers bounded only (the CSEP CSV reader itself: C19, proved over an abstract csv file)'
